@@ -80,6 +80,9 @@ type RetJ struct {
 	IsErr  bool     `json:"iserr"`
 	Panic  string   `json:"panic,omitempty"`
 	Nested []string `json:"nested"`
+	// Nestedq: every handler-issued mutation of the call with the queue length
+	// and error state it met
+	Nestedq []rec.NestedObs `json:"nestedq"`
 	ErrHas bool     `json:"errhas"`
 	ErrInt int      `json:"errinternal"`
 	// ErrTimeout: Err() is (wraps) ErrHandlerTimeout
@@ -263,7 +266,8 @@ func retOf(m *am.Machine, r *rec.Recorder, res, pan string, errInt int, o Opts, 
 		Active: nz(m.ActiveStates(nil)),
 		Time:   append([]uint64{}, m.Time(nil)...),
 		Qtick:  m.QueueTick(), Qlen: int(m.QueueLen()), IsErr: m.IsErr(),
-		Nested: append([]string{}, r.NestedRes...),
+		Nested:  append([]string{}, r.NestedRes...),
+		Nestedq: append([]rec.NestedObs{}, r.NestedObs...),
 		ErrInt: errInt}
 	if e := m.Err(); e != nil {
 		ret.Err = e.Error()
